@@ -33,7 +33,14 @@ class Collector(cachesys.Collector):
 def explore(ctx, wm, cfg, r_ops, faults, preexisting, bound, nrandom, limit, sink, segments=None):
   def run_once(chooser):
     run = writersys.WriterRun(wm, cfg, r_ops, faults=faults, preexisting=preexisting)
-    tr, log = run.execute(chooser)
+    try:
+      tr, log = run.execute(chooser)
+    except (sched.Blocked, sched.Deadlock, sched.StepLimit) as e:
+      # the writer (or the storing) thread never finishes: nothing cached at that point is ever written
+      ctx.violation('a thread of the cache daemon never finishes (%s: %s): what is cached is never written' % (type(e).__name__, e),
+                    dict(base, events=[x for x in run.ev if x.get('k') != 'cnt'][-12:]), signature='hang')
+      run_once.last = None
+      return []
     run_once.last = tr
     return log
   base = dict(cfg={k: v for k, v in cfg.items()}, r_ops=r_ops, faults=sorted(faults), preexisting=sorted(preexisting),
@@ -41,16 +48,22 @@ def explore(ctx, wm, cfg, r_ops, faults, preexisting, bound, nrandom, limit, sin
   n = 0
   for forced, log in sched.explore_bounded(run_once, bound, limit=limit, rng=ctx.rng):
     n += 1
+    if run_once.last is None:
+      return n              # hangs: reported; every further schedule would take the watchdog's time-out again
     sink(run_once.last, dict(base, forced=sorted(forced.items()), kind='bounded'))
   for seg in (segments or ()):
     run_once(sched.segment_chooser(seg))
     n += 1
+    if run_once.last is None:
+      return n
     sink(run_once.last, dict(base, segments=[list(x) for x in seg], kind='segments'))
   for i in range(nrandom):
     seed = ctx.rng.randrange(1 << 30)
     rr = random.Random(seed)
     run_once(sched.random_chooser(rr, switch_p=rr.choice([0.03, 0.1, 0.3])))
     n += 1
+    if run_once.last is None:
+      return n
     sink(run_once.last, dict(base, rseed=seed, kind='random'))
   return n
 
